@@ -6,8 +6,13 @@
 //     scope identities each emit one span / measurement / log record through a simple processor (pull
 //     reader) into a harness exporter. Oracle: exactly the scopes the first matching rule (else the
 //     default) enables arrive, each once, with its own scope identity.
+//     Meters: the enabled check is copied into every Meter::Create* - every instrument kind (c19_kinds.h)
+//     runs against the short rule lists. Loggers: every scope emits through the three ways the SDK logger
+//     can be asked to (helper, CreateLogRecord + EmitLogRecord(record), a record made elsewhere).
 // (d) every ordered pair of identity requests: same object iff equal in every component, also when the
 //     scope is disabled.
+// Compiled a second time under ABI v2 (registry entry c19_scopes_abi2): GetTracer / GetMeter take scope
+// attributes, so the attribute matcher and the attribute component of the identity apply to all signals.
 #include <opentelemetry/logs/logger.h>
 #include <opentelemetry/logs/severity.h>
 #include <opentelemetry/sdk/instrumentationscope/scope_configurator.h>
